@@ -15,7 +15,8 @@ ASSUME = [
     "bases: the n=2 universe of C07 (all allocations incl. teams, all edge sets, all priority vectors over {500,700}, leave, daily limit) plus its project-ALAP variants; thorough adds the n=3 slice",
     "intruder: priority 1, effort {1/2, 1, 3} slots, on r1 or r2, declared first / between / last, free or pinned to day 2 10:00; plus special intruders (depending on a base task, task-level ALAP without deadline, milestone, 40 h effort) on one- and two-scenario variants of the unconstrained bases; all scenarios are compared",
     "precondition (checked, else skipped and counted): the project end is not extended in either run",
-    "'wide9' family: bases = the two ten-task projects of mc/props/wide.py with every single toggle, alone and with reversed declaration order (thorough: every subset of <= 2 of the 26 toggles); intruder = priority 1, 30 min or 10 h, on each of r1-r4, declared first or last; pairs where a task is unscheduled or ends after the declared 8-week window in either run are skipped and counted",
+    "'wide9' family: bases = the two ten-task projects of mc/props/wide.py with every single toggle, alone and with reversed declaration order (thorough: every subset of <= 2 of the 28 toggles); intruder = priority 1, 30 min or 10 h, on each of r1-r4, declared first, in the middle or last; pairs where a task is unscheduled or ends after the declared 8-week window in either run are skipped and counted",
+    "'alapext' family (open finding D55): backward-anchored work + a 40 / 60 h lowest-priority task that fits the declared window but triggers the scheduler's window extension; no precondition is applied there",
     "in backward (ALAP) projects intruders that depend on a base task are not generated: there the added task is a successor whose start is its predecessor's deadline, which C04 requires to be honoured",
 ]
 
@@ -76,6 +77,33 @@ def universe(tier):
                     yield {"base": b, "in": i, "scen": scen}
 
 
+def alapext(tier):
+    """Backward-anchored work plus an added lowest-priority task that is large enough to trigger the scheduler's window extension
+    although everything fits the declared window (the added task has a whole resource of its own): the open finding D55."""
+    for proj_alap in (True, False):
+        for a_h in (4, 10):
+            for z_h in (40, 60):
+                for zres in ("r2", "r1"):
+                    for pos in ("first", "last"):
+                        yield {"kind": "alapext", "palap": proj_alap, "a": a_h, "z": z_h, "zres": zres, "pos": pos}
+
+
+def alapext_specs(it):
+    a = {"id": "a", "effort": it["a"] * 60, "alloc": ["r1"]}
+    if not it["palap"]:
+        a["sched"] = "alap"   # task-level: anchored at the project end as well
+    base = {"dur": "3w", "alap": it["palap"], "resources": [{"id": "r1"}, {"id": "r2"}], "tasks": [a, {"id": "b", "effort": 120, "alloc": ["r2"], "prio": 700}]}
+    w = copy.deepcopy(base)
+    zz = {"id": "zz", "effort": it["z"] * 60, "alloc": [it["zres"]], "prio": 1}
+    w["tasks"].insert(0 if it["pos"] == "first" else len(w["tasks"]), zz)
+    return base, w
+
+
+def trait(item, clause, detail, fid):
+    """Guards --learn: D55 may only be recorded for the alapext family (window extension moves backward anchors)."""
+    return fid == "D55" and isinstance(item, dict) and item.get("kind") == "alapext" and clause == "disturbed"
+
+
 def i_long(item):
     return item["in"]["m"] >= 180
 
@@ -84,6 +112,8 @@ def specs(item):
     if item.get("kind") == "wide9":
         from mc.props import wide
         return wide.specs9(item)
+    if item.get("kind") == "alapext":
+        return alapext_specs(item)
     b = item["base"]
     base = c07.to_spec(b)
     base["alap"] = b["alap"]
@@ -118,7 +148,10 @@ def evaluate(item):
     r = common.base_result(item, o2)
     r["tr"] += o1.get("placements", 0) + o1.get("bookings", 0)
     wide9 = item.get("kind") == "wide9"
-    if wide9:
+    if item.get("kind") == "alapext":
+        # everything fits the declared window by construction (<= 60 h on a resource that has 120 working hours): no precondition
+        pass
+    elif wide9:
         # larger projects: the scheduler may lengthen the window on its own (both runs may differ in that); what matters
         # is that everything fits the DECLARED horizon in both runs
         from mc.ref.calendar import parse_date
@@ -143,7 +176,7 @@ def evaluate(item):
             if a != b:
                 v.append(("disturbed", f"{t['id']} (scenario {sc}): alone {a}, with lowest-priority task zz {b}"))
     zz = t2["zz"]
-    if wide9:
+    if wide9 or item.get("kind") == "alapext":
         r["v"] = common.dedup(v)
         r["nt"] = True   # every resource of the wide bases carries base work
         return r
@@ -187,6 +220,7 @@ def run(ctx):
     explore(ctx, universe(ctx.tier), "mc.props.c09:evaluate", st, payload=payload, sample_of=sample, batch=10000)
     from mc.props import wide
     explore(ctx, wide.universe9(ctx.tier), "mc.props.c09:evaluate", st, payload=payload, sample_of=sample)
+    explore(ctx, alapext(ctx.tier), "mc.props.c09:evaluate", st, payload=payload, sample_of=sample, trait=trait)
     common.vacuity_guard(ctx, st)
     cov = st.coverage(
         "all (base, intruder) pairs of the stated base universe x intruder alphabet, two real scheduler runs per pair; states = distinct "
